@@ -9,7 +9,7 @@ RULE = ("libFuzzer (ASan + restricted UBSan, no-recover; decoder objects built w
         "is_16bit_pipeline, late get_picture) followed by length-prefixed chunks, each handed to svt_av1_dec_frame in its own exact-size heap buffer; a fresh decoder handle per input; "
         "after every chunk get_picture is called, at the end deinit + deinit_handle. Mutation: OBU-aware custom mutator (payload mutation with consistent leb128 sizes, header-region bit flips, OBU "
         "duplicate/drop/splice across temporal units, truncation, lying size fields) with fallback to byte-level mutation; seeds = 50 tiny valid streams from the SVT encoder and from libaom's encoder "
-        "(corpus/dec) in one campaign and an EMPTY corpus in a second one. Oracle inside the target: every call returns, no sanitizer report, no abort, teardown works (LeakSanitizer); a unit exceeding "
+        "(corpus/dec) in one campaign and an EMPTY corpus in a second one; before the campaigns a structured family is enumerated: every seed stream with the last 1-4 bytes of one temporal unit missing. Oracle inside the target: every call returns, no sanitizer report, no abort, teardown works (LeakSanitizer); a unit exceeding "
         "10 s is a hang candidate and counts only if it reproduces 3x standalone with a 60 s limit. Every crash-/leak- artifact is re-run standalone and keyed by (sanitizer kind, innermost frame in Source/). "
         "non-trivial = distinct final-corpus units that reached block-level parsing (hook H4 block counter > 0); evaluations = executed units.")
 ASSUMPTIONS = ["single-threaded decoder (the property's quantifier)", "libFuzzer campaigns are only approximately reproducible from -seed; the saved artifact is the reproducible unit"]
@@ -114,6 +114,50 @@ def main(argv):
         if key:
             classes["regression_failing"] = classes.get("regression_failing", 0) + 1
             (known_seen if engine.key_matches(known, key) else viol).setdefault(key, (f, what))
+    # 1b) structured family the byte-level campaign rarely hits within a short budget: every seed stream with the LAST 1..4 bytes of one temporal
+    #     unit missing (last unit, and one unit chosen from the check seed).  Each unit is handed to the decoder in an exact-size heap buffer, so
+    #     a reader that trusts a declared OBU size over the buffer end is visible to ASan.
+    def chunks_of(b):
+        out, pos = [], 1
+        while pos + 2 <= len(b):
+            n = b[pos] | (b[pos + 1] << 8)
+            pos += 2
+            out.append(b[pos:pos + n])
+            pos += n
+        return out
+    td = os.path.join(wd, "trunc")
+    os.makedirs(td)
+    tfiles = []
+    for si_, f in enumerate(seeds):
+        b = open(f, "rb").read()
+        ch = chunks_of(b)
+        if not ch:
+            continue
+        for ci in sorted({len(ch) - 1, (a.seed * 7 + si_) % len(ch)}):
+            for cut in (1, 2, 3, 4):
+                if len(ch[ci]) <= cut + 2:
+                    continue
+                c2_ = list(ch)
+                c2_[ci] = ch[ci][:-cut]
+                o = bytes([b[0]]) + b"".join(bytes([len(c) & 255, len(c) >> 8]) + c for c in c2_)
+                fn = os.path.join(td, "%s.u%d.cut%d" % (os.path.basename(f)[:24], ci, cut))
+                open(fn, "wb").write(o)
+                tfiles.append(fn)
+    with cf.ThreadPoolExecutor(max_workers=16) as ex:
+        tres = list(ex.map(lambda f: classify(exe, f), tfiles))
+    classes["truncated_units"] = len(tfiles)
+    tby = {}
+    for f, (key, what) in zip(tfiles, tres):
+        if key:
+            classes["truncated_units_failing"] = classes.get("truncated_units_failing", 0) + 1
+            tby.setdefault(key, (f, what))
+    for key, (f, what) in tby.items():
+        if engine.key_matches(known, key):
+            known_seen.setdefault(key, (f, what))
+        elif sum(1 for _ in range(2) if classify(exe, f)[0] == key) == 2:
+            keep = os.path.join(wd, "keep-" + os.path.basename(f))
+            shutil.copy(f, keep)
+            viol.setdefault(key, (keep, what))
     # 2) campaigns: seeded + empty corpus
     secs = a.seconds or (1500 if tier == "thorough" else 75)
     c1, c2, art1, art2 = [os.path.join(wd, x) for x in ("corp_seeded", "corp_empty", "art_seeded", "art_empty")]
